@@ -103,6 +103,25 @@ SqSeedsMid == { <<>>, FromBE(<<77, 1, 2, 3, 4, 5, 6, 7>>), BSub(Two64, <<3>>), F
 SqZeros(p) == UNION { SqZero(p, 3, BAdd(BAdd(l, BMul(Two64, m1)), BMul(Two128, m2)), <<>>) : l \in SqSeedsLo, m1 \in SqSeedsMid, m2 \in { x \in SqSeedsMid : BLess(x, Two64) } }
               \cup UNION { SqZero(p, 2, BAdd(l, BMul(Two64, m1)), hi) : l \in SqSeedsLo, m1 \in { x \in SqSeedsMid : BLess(x, Two64) }, hi \in { <<5>>, BDiv(LimbOf(p, 4), <<3>>) } }
               \cup UNION { SqZero(p, 1, l, hi) : l \in SqSeedsLo, hi \in { <<9, 9>>, BAdd(Two64, <<1>>), BMul(Two64, BDiv(LimbOf(p, 4), <<2>>)) } }
+\* conversion family: canonical x whose conversion INTO Montgomery form (the Montgomery product x * (2^512 mod p)) has a prescribed
+\* quotient k, and values whose conversion OUT of Montgomery form (m * 1) has it: x (2^512 mod p) = -k p, resp. m = -k p (mod 2^256).
+\* 2^512 mod q is even (2 u, u odd): k must be even and x is determined modulo 2^255 (both lifts kept).
+R2Of(p) == BMod(BMul(Two256, Two256), p)
+CvtIn(p) == LET r2 == R2Of(p)
+                odd == BIsOdd(r2)
+                u == IF odd THEN r2 ELSE BDiv(r2, <<2>>)
+                M == IF odd THEN Two256 ELSE Two255
+                ui == InvModR(u)
+                ks == IF odd THEN QPatterns ELSE { k \in QPatterns : ~BIsOdd(k) }
+                t(k) == BMod(BSub(Two256, BMod(BMul(k, p), Two256)), Two256)
+                x0(k) == BMod(BMul(IF odd THEN t(k) ELSE BDiv(t(k), <<2>>), ui), M)
+            IN { x \in UNION { IF odd THEN { x0(k) } ELSE { x0(k), BAdd(x0(k), M) } : k \in ks } : BLess(x, p) /\ x # <<>> }
+CvtOut(p) == { OutOfMont(p, m) : m \in { mm \in { BMod(BSub(Two256, BMod(BMul(k, p), Two256)), Two256) : k \in QPatterns } : BLess(mm, p) /\ mm # <<>> } }
+CvtQ == CvtIn(Q) \cup CvtOut(Q)              \* zero-arity: evaluated once
+CvtR == CvtIn(R) \cup CvtOut(R)
+CvtInQ == CvtIn(Q)
+CvtInR == CvtIn(R)
+Cvt(p) == IF p = Q THEN CvtQ ELSE CvtR
 Enc32(a) == ToBE(a, 32)
 PoolOf(p) == [ eqpairs |-> SetToSeq({ << Enc32(OutOfMont(p, pr[1])), Enc32(OutOfMont(p, pr[2])) >> : pr \in EqPairs(p) }),
                sopq |-> IF p = Q THEN SetToSeq({ << Enc32(OutOfMont(p, c[1])), Enc32(OutOfMont(p, c[2])), Enc32(OutOfMont(p, c[3])), Enc32(OutOfMont(p, c[4])) >> : c \in SopQuads(p) }) ELSE <<>>,
@@ -111,12 +130,16 @@ PoolOf(p) == [ eqpairs |-> SetToSeq({ << Enc32(OutOfMont(p, pr[1])), Enc32(OutOf
                vsq |-> SetToSeq({ Enc32(OutOfMont(p, m)) : m \in (IF p = Q THEN VSquares ELSE {}) \cup SqZeros(p) }),
                hi |-> SetToSeq({ Enc32(OutOfMont(p, m)) : m \in HiRes(p) }),
                lo |-> SetToSeq({ Enc32(OutOfMont(p, m)) : m \in LoRes(p) }),
-               vals |-> SetToSeq({ Enc32(v) : v \in Vals(p) }),
+               vals |-> SetToSeq({ Enc32(v) : v \in Vals(p) \cup Cvt(p) }),
+               cvt |-> SetToSeq({ Enc32(v) : v \in Cvt(p) }),
                pairs |-> SetToSeq({ << Enc32(OutOfMont(p, pr[1])), Enc32(OutOfMont(p, pr[2])) >> : pr \in MPairs(p) }) ]
 VARIABLE done
 Init == done = FALSE
 Next == ~done /\ done' = TRUE
           /\ JsonSerialize(IOEnv.OUT, [ Fq |-> PoolOf(Q), Fr |-> PoolOf(R) ])
           /\ \A s \in OddSeeds : BMod(BMul(s, InvModR(s)), Two256) = <<1>>
+          /\ (\A p \in {Q, R} : (BIsOdd(R2Of(p)) \/ BIsOdd(BDiv(R2Of(p), <<2>>))))
+          /\ (\A p \in {Q, R} : \A x \in (IF p = Q THEN CvtInQ ELSE CvtInR) :          \* the quotient -x R2 p^-1 mod 2^256 of every generated x is one of the patterns
+                 BMod(BMul(BMod(BSub(Two256, BMod(BMul(x, R2Of(p)), Two256)), Two256), InvModR(p)), Two256) \in QPatterns)
           /\ PrintT(<<"GENPOOL", Cardinality(Vals(Q)), Cardinality(MPairs(Q)), Cardinality(Vals(R)), Cardinality(MPairs(R))>>)
 =============================================================================
